@@ -1243,6 +1243,15 @@ func genDagCase(r *rand.Rand, id int, prop string) *DagCase {
 	if r.Intn(10) == 0 {
 		n = 8 + r.Intn(5)
 	}
+	shape := ""
+	switch x := r.Intn(200); {
+	case x < 3:
+		n, shape = 18+r.Intn(12), "fan" // one task with more than 16 dependents
+	case x < 6:
+		n, shape = 18+r.Intn(12), "chain" // a dependency chain longer than 16
+	case x < 7:
+		n = 66 + r.Intn(14) // more than 64 tasks
+	}
 	ref := func(i int) TRef { return TRef{ID: i} }
 	messy := r.Intn(100) < 25 // histories with re-adds, duplicate edges, bad tasks
 	cyclic := r.Intn(100) < 8
@@ -1258,6 +1267,12 @@ func genDagCase(r *rand.Rand, id int, prop string) *DagCase {
 			if r.Float64() < 2.0/float64(i) {
 				deps = append(deps, ref(j))
 			}
+		}
+		switch shape {
+		case "fan":
+			deps = append(deps, ref(1))
+		case "chain":
+			deps = append(deps, ref(i-1))
 		}
 		if len(deps) > 0 {
 			r.Shuffle(len(deps), func(a, b int) { deps[a], deps[b] = deps[b], deps[a] })
@@ -1311,6 +1326,9 @@ func genDagCase(r *rand.Rand, id int, prop string) *DagCase {
 		retries := 0
 		if r.Intn(5) == 0 {
 			retries = 1 + r.Intn(2)
+			if r.Intn(6) == 0 {
+				retries = 3 + r.Intn(3)
+			}
 			c.Ops = append(c.Ops, DagOp{Op: "retries", T: ref(i), N: retries})
 		}
 		var outs []string
